@@ -746,3 +746,74 @@ contract(F + "Continuum.from_rttm",
                                 "exists(k, 0, len(FILES[f][1]), funit(f, k) == u)))"])},
          hooks=[("after", "annotations = ...", "FILES = annotations")],
          serves={"C18"})
+
+contract(F + "Continuum.add_timeline",
+         params={"self": CONT(), "annotator": StrT(), "timeline": ListOf(SegT())}, modifies=["self"], macros=VIEW_MACROS + [
+             Macro("segunit", ["k"], "mkunit(timeline[k].start, timeline[k].end, None)")],
+         requires=["RI(self)"],
+         raises={"ValueError": {"iff": "exists(k, 0, len(timeline), not timeline[k].end - timeline[k].start > 1e-6)"}},
+         ensures=[cl("forall([(a, Real), (u, Unit)], Us(self)[a][u] == (old(Us(self))[a][u] or (a == annotator and "
+                     "exists(k, 0, len(timeline), segunit(k) == u))))", "C18", name="one-unlabelled-unit-per-segment-of-the-timeline"),
+                  cl("RI(self)", "C18", name="RI")],
+         loops={"L0": dict(match="for segment in timeline", index="kT", modifies=["self"],
+                           inv=["forall(k, 0, kT, timeline[k].end - timeline[k].start > 1e-6)", "RI(self)",
+                                "forall([(a, Real), (u, Unit)], Us(self)[a][u] == (old(Us(self))[a][u] or (a == annotator and "
+                                "exists(k, 0, kT, segunit(k) == u))))"])},
+         serves={"C18"})
+
+# C18 X4: add_elan adds every (start, end, value) annotation of the selected tiers; the label is the value, or the tier name when asked
+ELAN_SEL = "(isnone(selected_tiers) or exists(j, 0, len(some(selected_tiers)), some(selected_tiers)[j] == EAF.tiers[t][0]))"
+contract(F + "Continuum.add_elan",
+         params={"self": CONT(), "annotator": StrT(), "eaf_path": StrT(), "selected_tiers": OptT(ListOf(StrT())), "use_tier_as_annotation": BoolT()},
+         modifies=["self"], macros=VIEW_MACROS + [
+             Macro("annunit", ["t", "k"], "mkunit(EAF.tiers[t][1][k][0], EAF.tiers[t][1][k][1], "
+                                          "ite(use_tier_as_annotation, EAF.tiers[t][0], EAF.tiers[t][1][k][2]))"),
+             Macro("selected", ["t"], ELAN_SEL)],
+         ghost_vars={"EAF": ("Int", None)},
+         requires=["RI(self)"],
+         raises={"ValueError": {}},
+         ensures=[cl("forall([(a, Real), (u, Unit)], Us(self)[a][u] == (old(Us(self))[a][u] or (a == annotator and "
+                     "exists(t, 0, len(EAF.tiers), selected(t) and exists(k, 0, len(EAF.tiers[t][1]), annunit(t, k) == u)))))", "C18",
+                     name="X4-every-annotation-of-the-selected-tiers-times-unchanged-label-value-or-tier-name"),
+                  cl("RI(self)", "C18", name="RI")],
+         loops={"L0": dict(match="for tier_name in eaf.get_tier_names()", index="tI", modifies=["self"],
+                           inv=["RI(self)",
+                                "forall([(a, Real), (u, Unit)], Us(self)[a][u] == (old(Us(self))[a][u] or (a == annotator and "
+                                "exists(t, 0, tI, selected(t) and exists(k, 0, len(EAF.tiers[t][1]), annunit(t, k) == u)))))"]),
+                "L0.0": dict(match="for start, end, value in eaf.get_annotation_data_for_tier(tier_name)", index="kA", modifies=["self"],
+                             inv=["RI(self)", "selected(tI)",
+                                  "forall([(a, Real), (u, Unit)], Us(self)[a][u] == (old(Us(self))[a][u] or (a == annotator and "
+                                  "(exists(t, 0, tI, selected(t) and exists(k, 0, len(EAF.tiers[t][1]), annunit(t, k) == u)) or "
+                                  "exists(k, 0, kA, annunit(tI, k) == u)))))"])},
+         hooks=[("after", "eaf = ...", "EAF = eaf")],
+         serves={"C18"})
+
+# C18 X3: add_textgrid adds exactly the intervals with a non-empty mark of the (first tier of each) selected tier name, times unchanged,
+# label = the mark, or the tier name when asked
+TG_SEL = "(isnone(selected_tiers) or exists(j, 0, len(some(selected_tiers)), some(selected_tiers)[j] == TG.tiers[t][0]))"
+contract(F + "Continuum.add_textgrid",
+         params={"self": CONT(), "annotator": StrT(), "tg_path": StrT(), "selected_tiers": OptT(ListOf(StrT())), "use_tier_as_annotation": BoolT()},
+         modifies=["self"], macros=VIEW_MACROS + [
+             Macro("ft", ["t"], "TG.first(TG.tiers[t][0])"),
+             Macro("ivunit", ["t", "k"], "mkunit(TG.tiers[ft(t)][1][k].minTime, TG.tiers[ft(t)][1][k].maxTime, "
+                                         "ite(use_tier_as_annotation, TG.tiers[t][0], some(TG.tiers[ft(t)][1][k].mark)))"),
+             Macro("marked", ["t", "k"], "not isnone(TG.tiers[ft(t)][1][k].mark)"),
+             Macro("selected", ["t"], TG_SEL)],
+         ghost_vars={"TG": ("Int", None)},
+         requires=["RI(self)"],
+         raises={"ValueError": {}},
+         ensures=[cl("forall([(a, Real), (u, Unit)], Us(self)[a][u] == (old(Us(self))[a][u] or (a == annotator and "
+                     "exists(t, 0, len(TG.tiers), selected(t) and exists(k, 0, len(TG.tiers[ft(t)][1]), marked(t, k) and ivunit(t, k) == u)))))", "C18",
+                     name="X3-exactly-the-marked-intervals-of-the-selected-tiers-times-unchanged-label-mark-or-tier-name"),
+                  cl("RI(self)", "C18", name="RI")],
+         loops={"L0": dict(match="for tier_name in tg.getNames()", index="tI", modifies=["self"],
+                           inv=["RI(self)",
+                                "forall([(a, Real), (u, Unit)], Us(self)[a][u] == (old(Us(self))[a][u] or (a == annotator and "
+                                "exists(t, 0, tI, selected(t) and exists(k, 0, len(TG.tiers[ft(t)][1]), marked(t, k) and ivunit(t, k) == u)))))"]),
+                "L0.0": dict(match="for interval in tier", index="kI", modifies=["self"],
+                             inv=["RI(self)", "selected(tI)",
+                                  "forall([(a, Real), (u, Unit)], Us(self)[a][u] == (old(Us(self))[a][u] or (a == annotator and "
+                                  "(exists(t, 0, tI, selected(t) and exists(k, 0, len(TG.tiers[ft(t)][1]), marked(t, k) and ivunit(t, k) == u)) or "
+                                  "exists(k, 0, kI, marked(tI, k) and ivunit(tI, k) == u)))))"])},
+         hooks=[("after", "tg = ...", "TG = tg")],
+         serves={"C18"})
